@@ -307,6 +307,11 @@ func (o *ObjectSchema) getFieldReflection(propertyID string, v reflect.Value, pr
 		// For a required property, nil keeps meaning the empty list or map.
 		return nil
 	}
+	if property.Disabled && val.IsZero() {
+		// A disabled property cannot be supplied, so Unserialize leaves its field at the zero value, which a field
+		// that is not a pointer cannot tell from "not set".
+		return nil
+	}
 	if val.Interface() == nil {
 		return nil
 	}
